@@ -196,4 +196,45 @@ def step (_ : Unit) (kind : String) (args impl : List String) : Option (Unit × 
 def machine : Machine := { σ := Unit, name := "idlerace", init := fun _ => some (), step := step }
 end C18R
 
-def main (args : List String) : IO UInt32 := runMachines [C18.machine, C18R.machine] args
+/- machine `watch`: the torrentAccessWatcher alone, with overlapping piece writes. Model: LastWriteTime is the
+   creation time, then the completion time of the latest successful write (what `Model.TorrentIdle.writeTor` does
+   with `lastWrite` when a write is one step); starts and failing writes do not move it. -/
+namespace C18W
+structure St where
+  now : Nat := 0
+  lw : Nat := 0
+  openW : List (String × Bool × Bool) := []   -- slot, will succeed, a successful write completed since it started
+  implLw : Nat := 0
+
+def step (s : St) (kind : String) (args impl : List String) : Option (St × StepOut) :=
+  if kind ≠ "op" then none else
+  let implLw := ((kv? impl "lw").bind (·.toNat?)).getD s.implLw
+  let done (s' : St) (first : List String) (br : String) (okAt : Option Nat) : Option (St × StepOut) :=
+    let pf := (if implLw < s.implLw then
+        [s!"side=impl key=last-write-time-rolled-back LastWriteTime went from {s.implLw} back to {implLw}"] else []) ++
+      (match okAt with
+       | some t => if implLw < t then [s!"side=impl key=last-write-time-rolled-back a piece was written at {t} but LastWriteTime is {implLw}"] else []
+       | none => [])
+    some ({ s' with implLw := implLw }, { obs := first ++ [s!"lw={s'.lw}"], branch := br, propfails := pf })
+  match args with
+  | ["adv", d] => do
+    let d ← d.toNat?
+    done { s with now := s.now + d } [] "adv" none
+  | ["start", k, r] =>
+    if (r ≠ "ok" ∧ r ≠ "fail") ∨ s.openW.any (·.1 = k) then none else
+    done { s with openW := (k, r = "ok", false) :: s.openW } [] ("start." ++ r ++ (if s.openW.isEmpty then "" else ".overlapping")) none
+  | ["end", k] =>
+    match s.openW.find? (·.1 = k) with
+    | none => none
+    | some (_, ok, overlapped) =>
+      let rest := s.openW.filter (·.1 ≠ k)
+      if ok then
+        done { s with lw := s.now, openW := rest.map fun (k', o, _) => (k', o, true) } ["ok"] "end.ok" (some s.now)
+      else
+        done { s with openW := rest } ["failed"] (if overlapped then "failed-write-overlapping-good-write" else "end.failed") none
+  | _ => none
+
+def machine : Machine := { σ := St, name := "watch", init := fun _ => some {}, step := step }
+end C18W
+
+def main (args : List String) : IO UInt32 := runMachines [C18.machine, C18R.machine, C18W.machine] args
